@@ -313,6 +313,9 @@ func c05Sequences(c *Ctx) {
 			var text bytes.Buffer
 			var want []item
 			text.WriteString(pick(r, treeSeparators))
+			// all trees marshalled first and the results held, then joined
+			var held [][]byte
+			var roots []*newick.Node
 			for j := 0; j < nt; j++ {
 				root, nodes := randomTree(r, 1+r.IntN(8), r.IntN(4))
 				decorate(r, nodes)
@@ -320,10 +323,20 @@ func c05Sequences(c *Ctx) {
 				if err != nil {
 					k.Failf("marshal-error", "MarshalText returned %v", err)
 				}
-				text.Write(m)
-				text.WriteString(pick(r, treeSeparators))
+				held = append(held, m)
+				roots = append(roots, root)
 				want = append(want, item{Key: treeKey(root)})
 			}
+			for j, m := range held {
+				var w bytes.Buffer
+				roots[j].Write(&w)
+				if !bytes.Equal(w.Bytes(), m) {
+					k.Failf("write-vs-marshal", "tree %d: the bytes returned earlier by MarshalText differ from what Write produces", j)
+				}
+				text.Write(m)
+				text.WriteString(pick(r, treeSeparators))
+			}
+			k.Count("held_marshal_results", int64(len(held)))
 			k.Input("text", text.Bytes())
 			got, over := collect(codecByName("newick").seq(bytes.NewReader(text.Bytes())), nt+3)
 			if over || !sameTrace(got, want) {
